@@ -66,6 +66,39 @@ fn main() {
                 std::process::exit(3);
             }
         }
+        "table" => {
+            let mut errors = 0;
+            for k in 0..gen::TABLE_SIZE {
+                let t = gen::gen_table(k);
+                writeln!(out, "trace {} table", k).unwrap();
+                for l in &t.lines {
+                    writeln!(out, "{}", l).unwrap();
+                }
+                writeln!(out, "end").unwrap();
+                if t.error.is_some() {
+                    errors += 1;
+                }
+            }
+            out.flush().unwrap();
+            if errors > 0 {
+                std::process::exit(3);
+            }
+        }
+        "build-table" => {
+            // PoolBuilder::build() for every combination of configured timeouts / runtime
+            let tm = [managed::Tmo::None, managed::Tmo::Zero, managed::Tmo::Finite];
+            for w in tm {
+                for c in tm {
+                    for r in tm {
+                        for rt in [false, true] {
+                            let res = managed::try_build(w, c, r, rt);
+                            writeln!(out, "build {} {} {} {} => {}", w.ch(), c.ch(), r.ch(), if rt { 1 } else { 0 }, res).unwrap();
+                        }
+                    }
+                }
+            }
+            out.flush().unwrap();
+        }
         "replay" => {
             let path = arg(&args, "--in").expect("--in FILE");
             let f = std::io::BufReader::new(std::fs::File::open(path).expect("open in"));
